@@ -899,8 +899,9 @@ spifconf_parse_line(FILE * fp, spif_charptr_t buff)
               if (!(fp = spifconf_open_file(path))) {
                   libast_print_error("Parsing file %s, line %lu:  Unable to locate %%included config file %s (%s), continuing\n", file_peek_path(),
                               file_peek_line(), path, strerror(errno));
+                  FREE(path);
               } else {
-                  file_push(fp, path, NULL, 1, 0);
+                  file_push(fp, path, NULL, 1, FILE_PATH_OWNED);
               }
           } else if (!BEG_STRCASECMP(spiftool_get_pword(1, buff + 1), "preproc ")) {
               spif_char_t cmd[PATH_MAX], fname[PATH_MAX];
@@ -1004,6 +1005,9 @@ spifconf_parse(spif_charptr_t conf_name, const spif_charptr_t dir, const spif_ch
         if (file_peek_preproc()) {
             remove((char *) file_peek_outfile());
             FREE(file_peek_outfile());
+        }
+        if (fstate[fstate_idx].flags & FILE_PATH_OWNED) {
+            FREE(file_peek_path());
         }
         file_pop();
     }
